@@ -23,6 +23,7 @@ from fractions import Fraction
 
 import pandas as pd
 
+from harness import c05_guard as G
 from harness import splink_util as su
 from harness.common import coq_Q, coq_Z, coq_bool, coq_list, coq_opt
 
@@ -146,10 +147,30 @@ def qualifies(k, t) -> bool:
 _EFF: dict = {}
 
 
+CONVERSION_CHECKED: dict = {}
+CONVERSION_BAD: list = []
+
+
 def single_threshold_prob(w) -> float:
-    """The probability the implementation's own single-threshold conversion computes for weight w."""
+    """The probability the implementation's own single-threshold conversion computes for weight w.
+    Independent obligation, once per weight: it is within 2 ulp of 2^w/(1+2^w) evaluated with 60
+    significant digits (the weight taken as the exact double it is)."""
     from splink.internals.misc import threshold_args_to_match_prob
-    return threshold_args_to_match_prob(None, float(w))
+    p = threshold_args_to_match_prob(None, float(w))
+    key = repr(float(w))
+    if key not in CONVERSION_CHECKED:
+        import decimal
+        import math
+        with decimal.localcontext() as ctx:
+            ctx.prec = 60
+            b = decimal.Decimal(2) ** decimal.Decimal(float(w))
+            exact = b / (1 + b)
+            err = abs(decimal.Decimal(p) - exact)
+            ok = err <= 2 * decimal.Decimal(math.ulp(p))
+        CONVERSION_CHECKED[key] = ok
+        if not ok:
+            CONVERSION_BAD.append({"match_weight": float(w), "implementation": repr(p), "specification 2^w/(1+2^w)": str(exact)[:25]})
+    return p
 
 
 def effective_threshold(backend: str, p: float) -> Fraction:
@@ -290,8 +311,8 @@ def _make_api(backend):
     return spark_api() if backend == "spark" else su.make_api(backend)
 
 
-def _capturing_api(backend, names_only=False):
-    api = _make_api(backend)
+def _capturing_api(backend, names_only=False, n_nodes=0):
+    api = G.install(_make_api(backend), n_nodes)
     cap = []
     orig = api.sql_pipeline_to_splink_dataframe
 
@@ -325,12 +346,14 @@ def _col(values, kind):
 def run_impl(case, capture=False):
     """Returns (rows, captured) : rows = [(node_key, cluster_key)]."""
     backend = case["backend"]
+    n = len(case["nodes"])
     if capture:
-        api, cap = _capturing_api(backend, names_only=(capture == "count"))
+        api, cap = _capturing_api(backend, names_only=(capture == "count"), n_nodes=n)
     else:
-        api, cap = _make_api(backend), []
+        api, cap = G.install(_make_api(backend), n), []
     try:
-        return _run_impl(case, api, cap)
+        with G.time_limit(900 if backend == "spark" else 120 + 0.3 * n, "clustering"):
+            return _run_impl(case, api, cap)
     finally:
         if backend == "spark":
             spark_clean()
